@@ -336,5 +336,20 @@ theorem feed_interleaving :
             simpa [List.append_assoc] using ih1
           · simpa [List.append_assoc] using ih2
 
+theorem runElems_items (bs : List (Bin α β)) (rest : List (Elem (Bin α β))) :
+    ∀ s : State κ α β,
+      runElems v kl kr s (bs.map Elem.item ++ rest)
+          = (feed v kl kr s bs).map Elem.item ++ runElems v kl kr (stateAfterBin v kl kr s bs) rest
+        ∧ stateAfter v kl kr s (bs.map Elem.item ++ rest)
+          = stateAfter v kl kr (stateAfterBin v kl kr s bs) rest
+        ∧ anyPanic v kl kr s (bs.map Elem.item ++ rest)
+          = anyPanic v kl kr (stateAfterBin v kl kr s bs) rest := by
+  induction bs with
+  | nil => intro s; simp [feed, stateAfterBin]
+  | cons b bs ih =>
+    intro s
+    obtain ⟨i1, i2, i3⟩ := ih (stepBin v kl kr s b).1
+    simp [runElems, stateAfter, anyPanic, feed, stateAfterBin, step, panics, i1, i2, i3]
+
 end HashJoin
 end Noir.Join
